@@ -153,15 +153,27 @@ def check_readback(mon, d, entries, case, sh, what, spec_entries=None):
     return True
 
 
-def run_pair(mon, base, idx, old, new, sh):
+def run_pair(mon, base, idx, old, new, sh, locked=False):
+    """locked: the executor runs as uid 65534 and, before the new env is written, the env directories of the old one lose their
+    write bit - the old files cannot be removed. The write may fail; it must not succeed with the old files still there."""
     d = os.path.join(base, b"p%d" % idx)
     os.mkdir(d)
-    case = {"kind": "pair", "old": enc_entries(old), "new": enc_entries(new)}
+    case = {"kind": "pair", "old": enc_entries(old), "new": enc_entries(new), "locked": locked}
     try:
         make_bystanders(d)
+        if locked:
+            vp.chown_tree(d)
         for step, entries in (("old", old), ("new", new)):
+            if locked and step == "new":
+                for root in ENV_ROOTS:
+                    for dp, _, _ in os.walk(os.path.join(d, root)):
+                        os.chmod(dp, 0o555)
             rep = mon.call({"op": "write", "dir": hx(d), "entries": enc_entries(entries)})
             sh.evaluations += 1
+            if "err" in rep and locked and step == "new":
+                sh.count("locked_writes_refused")
+                sh.nontrivial.add(("locked-refused", frozenset(s_.split(":")[0] for s_, _, _, _ in old)))
+                return
             if "err" in rep:
                 sh.violation("write:error", "write_to_layer_dir(%s env) failed: %s" % (step, rep["detail"]), case)
                 return
@@ -258,14 +270,16 @@ def run_readdir(mon, base, idx, seed, sh):
 def shard_run(arg):
     kind, items, seed, base = arg
     sh = vp.Shard()
-    mon = vp.Mon("env")
+    mon = vp.Mon("env", prefix=vp.NOBODY if kind == "pair-locked" else ())
     wbase = os.path.join(base.encode(), b"w%d" % os.getpid())
     os.makedirs(wbase, exist_ok=True)
+    if kind == "pair-locked":
+        os.chown(wbase, 65534, 65534)
     try:
         for it in items:
-            if kind == "pair":
+            if kind in ("pair", "pair-locked"):
                 idx, old, new = it
-                run_pair(mon, wbase, idx, old, new, sh)
+                run_pair(mon, wbase, idx, old, new, sh, locked=kind == "pair-locked")
             else:
                 run_readdir(mon, wbase, it, seed, sh)
     finally:
@@ -308,6 +322,13 @@ def run(tier, seed, work):
     pairs += derived
     shards = [("pair", s, seed, work) for s in vp.split(pairs, vp.NCPU * 2)]
     shards += [("read", s, seed, work) for s in vp.split(range(nread), vp.NCPU)]
+    if vp.nobody_works():
+        # the same overwrites by an unprivileged user whose old env directories have become read-only
+        lk = [(10 ** 7 + i, o, n) for i, (_, o, n) in enumerate(pairs[:: max(1, len(pairs) // (600 if tier == "quick" else 6000))]) if o]
+        shards += [("pair-locked", s, seed, work) for s in vp.split(lk, vp.NCPU)]
+        res.extra["locked_pairs"] = len(lk)
+    else:
+        res.inconclusive.append("cannot drop privileges with setpriv: overwrites of read-only env directories are not exercised")
     for d in vp.pmap(shard_run, shards):
         res.merge(d)
     res.extra["pairs"] = len(pairs)
@@ -328,7 +349,12 @@ def replay(case, work):
     mon = vp.Mon("env")
     base = work.encode()
     dec = lambda es: [(s, b, bytes.fromhex(n), bytes.fromhex(v)) for s, b, n, v in es]
-    if case["kind"] == "pair":
+    if case["kind"] == "pair" and case.get("locked"):
+        mon.close()
+        mon = vp.Mon("env", prefix=vp.NOBODY)
+        os.chown(base, 65534, 65534)
+        run_pair(mon, base, 0, dec(case["old"]), dec(case["new"]), sh, locked=True)
+    elif case["kind"] == "pair":
         run_pair(mon, base, 0, dec(case["old"]), dec(case["new"]), sh)
     else:
         run_readdir(mon, base, case["idx"], case["seed"], sh)
